@@ -359,15 +359,14 @@ def run(ctx, only_scripts=None):
         stats["real_recorders_on_all_sinks"] = rs_stats
         # the same with a really full disk: the output directory on a 2 MB tmpfs that is filled up and freed again
         mnt = mount_small_fs(ctx, "smallfs")
-        if mnt:
-            try:
-                fs_viol, fs_stats = real_sinks(ctx, tier, smallfs=mnt)
-            finally:
+        try:
+            # where mounting is not permitted the same scripts run under a file-size limit of the process instead (EFBIG)
+            fs_viol, fs_stats = real_sinks(ctx, tier, smallfs=mnt or "rlimit")
+        finally:
+            if mnt:
                 umount(mnt)
-            violations += [v for v in fs_viol if v["key"] not in {x["key"] for x in violations}]
-            stats["real_recorders_on_a_full_disk"] = fs_stats
-        else:
-            ctx.notes.append("no small file system could be mounted: full-disk runs skipped")
+        violations += [v for v in fs_viol if v["key"] not in {x["key"] for x in violations}]
+        stats["real_recorders_on_a_full_disk"] = dict(fs_stats, how="2 MB tmpfs" if mnt else "RLIMIT_FSIZE")
         # the three sinks as handleConn wires them (separate recorder objects): a test recording requested in the
         # middle of a motion recording, with the continuous recorder on or off, through the unmodified runMain
         import fam_e2e
@@ -638,7 +637,8 @@ def real_sinks(ctx, tier, prop="C12", smallfs=None):
     inp, outp = ctx.path("run", tagname + ".json"), ctx.path("run", tagname + ".ndjson")
     json.dump(dict(scripts=scripts), open(inp, "w"))
     r = subprocess.run([binp, "-test.run", "^TestVerifRealSinks$"],
-                       env=dict(os.environ, VERIF_SCRIPT=inp, VERIF_OUT=outp, **(dict(VERIF_SMALLFS=smallfs) if smallfs else {})),
+                       env=dict(os.environ, VERIF_SCRIPT=inp, VERIF_OUT=outp,
+                                **(dict(VERIF_FSLIMIT="1") if smallfs == "rlimit" else dict(VERIF_SMALLFS=smallfs) if smallfs else {})),
                        capture_output=True, text=True, timeout=1800)
     if r.returncode != 0 or not os.path.exists(outp):
         raise vlib.Infra("real-sinks driver failed: " + (r.stdout + r.stderr)[-2500:])
